@@ -1,5 +1,7 @@
 import G3d.DriverCore
 import G3d.DriverAlgebra
+import G3d.DriverPrim
+import G3d.DriverPrimStats
 /-!
 Line-protocol driver (test apparatus; imports only core + the model).  See DriverCore for the protocol.
 Each layer of the model contributes a partial dispatcher `runOpX : String → Option (RdM String)`.
@@ -11,6 +13,9 @@ variable {α : Type} [Num α] [FloatIO α]
 
 def runOp (op : String) : RdM String :=
   match runOpAlgebra (α := α) op with
+  | some m => m
+  | none =>
+  match runOpPrim (α := α) op with
   | some m => m
   | none => return "unknown-op"
 
@@ -39,6 +44,7 @@ partial def loop (h : IO.FS.Stream) (f32 : Bool) (n dis : Nat) : IO (Nat × Nat)
         loop h f32 (n + 1) (dis + 1)
 
 def driverMain (args : List String) : IO UInt32 := do
+  if args.contains "primstats" then return (← primStatsMain args)
   let f32 := args.contains "f32"
   let (n, dis) ← loop (← IO.getStdin) f32 0 0
   IO.println s!"TOTAL {n} DIS {dis}"
